@@ -30,6 +30,22 @@ def model_dict(m):
     return out
 
 
+def try_bitblast(pc, goal, rlimit):
+    """second strategy for bit-vector heavy obligations: simplify, solve equalities, bit-blast, then SMT"""
+    s = z3.Then("simplify", "solve-eqs", "bit-blast", "smt").solver()
+    try:
+        s.set("rlimit", rlimit)
+    except z3.Z3Exception:
+        s.set("timeout", 120000)
+    for c in pc:
+        s.add(c)
+    s.add(z3.Not(goal))
+    try:
+        return s.check()
+    except z3.Z3Exception:
+        return None
+
+
 def discharge(ob, tier="quick", want_model=True):
     """sets ob.status in {'proved','failed','unknown'}"""
     t0 = time.time()
@@ -38,6 +54,11 @@ def discharge(ob, tier="quick", want_model=True):
     if z3.is_true(z3.simplify(goal)):
         ob.status, ob.backend, ob.time = "proved", "simplifier", time.time() - t0
         return ob
+    if getattr(ob, "prefer_bv", False):
+        r0 = try_bitblast(ob.pc, goal, rl)
+        if r0 == z3.unsat:
+            ob.status, ob.backend, ob.time = "proved", "z3-%s(api, bit-blast tactic)" % z3.get_version_string(), time.time() - t0
+            return ob
     s = _solver(ob.pc, goal, rl)
     r = s.check()
     ob.backend = "z3-%s(api)" % z3.get_version_string()
@@ -54,6 +75,10 @@ def discharge(ob, tier="quick", want_model=True):
     else:
         ob.status = "unknown"
         ob.detail = s.reason_unknown()
+        if try_bitblast(ob.pc, goal, rl) == z3.unsat:
+            ob.status, ob.backend = "proved", "z3-%s(api, bit-blast tactic)" % z3.get_version_string()
+            ob.time = time.time() - t0
+            return ob
         smt = None
         try:
             smt = s.to_smt2()
